@@ -395,7 +395,8 @@ def check_history(res: Result, run: Run, label: str):
         res.count("waitall_results")
         if result:
             for tid, ta in accepted.items():
-                if ta < tc and not (ends.get(tid) and ends[tid][0] < tr):
+                # (terminate() refuses new work before it looks: whatever was accepted before it RETURNED is covered by its answer)
+                if ta < (tr if who == "terminate" else tc) and not (ends.get(tid) and ends[tid][0] < tr):
                     res.violation(mech("waitall-true-with-unfinished-task"), f"{label}: {who} returned true at {tr}, task {tid} accepted at {ta} not finished")
     if run.final_waitall is not True and not run.stuck:
         res.violation(mech("final-waitall-not-true"), f"{label}: {run.final_waitall!r}; unfinished={sorted(set(accepted) - set(ends))}")
